@@ -929,3 +929,242 @@ Lemma refute_by_fault tg cs fmt orc G :
 Proof. intros H [d [Hrun _]]. apply (H d). assumption. Qed.
 
 Definition count_str (k : str) (l : list str) : nat := List.length (filter (str_eqb k) l).
+
+(** ** multiplicities: how many times a key is recorded for a node *)
+
+Definition count_obj (x : obj) (l : list obj) : nat := List.length (filter (obj_eqb x) l).
+
+Lemma count_str_app k a b : count_str k (a ++ b) = (count_str k a + count_str k b)%nat.
+Proof. unfold count_str. rewrite filter_app, app_length. reflexivity. Qed.
+
+Lemma count_obj_app x a b : count_obj x (a ++ b) = (count_obj x a + count_obj x b)%nat.
+Proof. unfold count_obj. rewrite filter_app, app_length. reflexivity. Qed.
+
+Lemma count_str_notin k l : ~ In k l -> count_str k l = 0%nat.
+Proof.
+  unfold count_str. induction l as [|x l IH]; intros H; [reflexivity|]. cbn.
+  destruct (str_eqb k x) eqn:E; [apply str_eqb_eq in E; subst; exfalso; apply H; left; reflexivity|].
+  apply IH. intros Hin. apply H. right. assumption.
+Qed.
+
+Lemma count_str_targets key k label nodes :
+  count_str key (targets_contrib k label nodes) = if str_eqb key label then count_str k nodes else 0%nat.
+Proof.
+  unfold targets_contrib. induction nodes as [|n nodes IH]; cbn [flat_map].
+  - destruct (str_eqb key label); reflexivity.
+  - rewrite count_str_app, IH. unfold count_str at 1 3. cbn [filter].
+    rewrite (str_eqb_sym_aux k n). destruct (str_eqb n k); cbn [filter List.length].
+    + destruct (str_eqb key label); reflexivity.
+    + destruct (str_eqb key label); reflexivity.
+Qed.
+
+Lemma count_map_rdflib rid xs n :
+  forallb is_iri_obj xs = true -> wf_node n = true ->
+  count_str (nid n) (map (rdflib_str rid) xs) = count_obj (ON n) xs.
+Proof.
+  intros Hall Wn. unfold count_str, count_obj. induction xs as [|x xs IH]; [reflexivity|].
+  cbn [forallb] in Hall. apply andb_true_iff in Hall. destruct Hall as [Hx Hall].
+  cbn [map filter]. specialize (IH Hall).
+  assert (E : str_eqb (nid n) (rdflib_str rid x) = obj_eqb (ON n) x).
+  { destruct x as [[[|] i]|c dt]; try discriminate. cbn in Hx. apply negb_true_iff in Hx.
+    cbn [rdflib_str obj_eqb]. destruct (str_eqb (nid n) i) eqn:Ei.
+    - apply str_eqb_eq in Ei. rewrite (wf_node_iri n i Wn Ei Hx). symmetry. apply node_eqb_eq. reflexivity.
+    - symmetry. destruct (node_eqb n (Node KIri i)) eqn:En; [|reflexivity].
+      apply node_eqb_eq in En. subst n. cbn in Ei. rewrite str_eqb_refl in Ei. discriminate. }
+  rewrite E. destruct (obj_eqb (ON n) x); cbn [List.length]; rewrite IH; reflexivity.
+Qed.
+
+(** the rdflib graph of a document without repeated statements is the document *)
+Lemma dedup_nodup g : forall seen,
+  nodup_graph g = true -> (forall t, In t g -> existsb (triple_eqb t) seen = false) -> dedup g seen = g.
+Proof.
+  induction g as [|t g IH]; intros seen Hnd Hs; [reflexivity|]. cbn [dedup].
+  rewrite (Hs t (or_introl eq_refl)). cbn [nodup_graph] in Hnd. apply andb_true_iff in Hnd.
+  destruct Hnd as [Ht Hnd]. apply negb_true_iff in Ht. f_equal. apply IH; [assumption|].
+  intros t' Ht'. cbn [existsb]. rewrite (Hs t' (or_intror Ht')), orb_false_r.
+  destruct (triple_eqb t' t) eqn:E; [|reflexivity]. apply triple_eqb_eq in E. subst t'.
+  assert (existsb (triple_eqb t) g = true) by (apply existsb_exists; exists t; split; [assumption | apply triple_eqb_eq; reflexivity]).
+  congruence.
+Qed.
+
+Lemma rdflib_graph_nodup G : nodup_graph G = true -> rdflib_graph G = G.
+Proof. intros H. apply dedup_nodup; [assumption | reflexivity]. Qed.
+
+Lemma items_count tg orc G p0 l n :
+  dom_facts tg orc G p0 -> wf_node n = true ->
+  count_str (Str "<" ++ l ++ Str ">") (items_part tg orc G (nid n)) =
+  count_obj (ON n) (label_answers tg (o_ans orc) (rdflib_graph G) l).
+Proof.
+  intros F Wn. pose proof (df_ns _ _ _ _ F) as W. unfold items_part, label_answers.
+  destruct (t_items tg) as [its|] eqn:Ei; [|reflexivity].
+  pose proof (df_items _ _ _ _ F its Ei) as Hall. clear Ei.
+  induction its as [|it its IH]; [reflexivity|]. cbn [map flat_map].
+  rewrite count_str_app, count_obj_app. rewrite IH by (intros; apply Hall; right; assumption). f_equal.
+  destruct (ok_item_split _ _ _ _ _ (Hall it (or_introl eq_refl))) as [Hang [_ [Hsel Hiri]]].
+  unfold item_contrib, citem. cbn [pi_sel pi_label]. rewrite (sel_targets_csel _ _ _ _ _ W Hsel).
+  rewrite count_str_targets.
+  destruct (it_label it) as [i0|l0|p1 l1]; try discriminate. cbn [show_ref resolve].
+  change (Str "<" ++ l ++ Str ">") with (add_corners l). change (Str "<" ++ l0 ++ Str ">") with (add_corners l0).
+  rewrite add_corners_eqb. destruct (str_eqb l l0); [|reflexivity].
+  apply count_map_rdflib; [|assumption].
+  apply forallb_forall. intros x Hx. apply (proj1 (selects_list_rdflib _ _ _ _ _)) in Hx.
+  rewrite forallb_forall in Hiri. auto.
+Qed.
+
+Lemma class_count tau m G n c :
+  wf_graph G = true -> wf_node n = true -> prefixb (Str "_:") c = false ->
+  count_str c (class_contrib tau m (nid n) G) =
+  count_obj (ON n)
+            (if match m with TAll => true | TClasses l => mem_str c l end
+             then map (fun t => ON (ts t))
+                      (filter (fun t => str_eqb (tp t) tau && obj_eqb (to t) (ON (iri_node c))) G)
+             else []).
+Proof.
+  intros WG Wn Wc. unfold wf_graph in WG. unfold class_contrib.
+  induction G as [|t G IH].
+  - destruct (match m with TAll => true | TClasses l => mem_str c l end); reflexivity.
+  - cbn [forallb] in WG. apply andb_true_iff in WG. destruct WG as [Wt WG]. specialize (IH WG).
+    cbn [flat_map]. rewrite count_str_app, IH. clear IH.
+    apply andb_true_iff in Wt. destruct Wt as [Ws Wo].
+    set (tgt := match m with TAll => true | TClasses l => mem_str c l end).
+    cbn [filter].
+    (* the contribution of [t] on both sides *)
+    assert (E : count_str c (if relevant tau m t && str_eqb (nid (ts t)) (nid n)
+                             then match to t with ON o => [nid o] | OL _ _ => [] end else []) =
+                if tgt && (str_eqb (tp t) tau && obj_eqb (to t) (ON (iri_node c))) && obj_eqb (ON n) (ON (ts t))
+                then 1%nat else 0%nat).
+    { unfold relevant. destruct (str_eqb (tp t) tau) eqn:Ep; cbn [andb]; [|rewrite andb_false_r; reflexivity].
+      destruct (to t) as [o|lc ldt] eqn:Eo.
+      2:{ destruct m; cbn; rewrite ?andb_false_r; try destruct (str_eqb (nid (ts t)) (nid n)); reflexivity. }
+      destruct (str_eqb c (nid o)) eqn:Ec.
+      - apply str_eqb_eq in Ec. pose proof (wf_node_iri o c Wo (eq_sym Ec) Wc) as Ho. subst o.
+        cbn [obj_eqb]. rewrite (proj2 (node_eqb_eq _ _) eq_refl), andb_true_r.
+        assert (Em : match m with TAll => true | TClasses l => mem_str c l end = tgt) by reflexivity.
+        destruct m as [|l]; cbn [nid] in *.
+        + subst tgt. cbn [andb].
+          destruct (str_eqb (nid (ts t)) (nid n)) eqn:Es.
+          * apply str_eqb_eq in Es. rewrite (wf_node_inj _ _ Ws Wn Es).
+            rewrite (proj2 (node_eqb_eq _ _) eq_refl). unfold count_str. cbn. rewrite str_eqb_refl. reflexivity.
+          * destruct (node_eqb n (ts t)) eqn:En; [|reflexivity]. apply node_eqb_eq in En. subst n.
+            rewrite str_eqb_refl in Es. discriminate.
+        + rewrite Em. destruct tgt; cbn [andb]; [|reflexivity].
+          destruct (str_eqb (nid (ts t)) (nid n)) eqn:Es.
+          * apply str_eqb_eq in Es. rewrite (wf_node_inj _ _ Ws Wn Es).
+            rewrite (proj2 (node_eqb_eq _ _) eq_refl). unfold count_str. cbn. rewrite str_eqb_refl. reflexivity.
+          * destruct (node_eqb n (ts t)) eqn:En; [|reflexivity]. apply node_eqb_eq in En. subst n.
+            rewrite str_eqb_refl in Es. discriminate.
+      - assert (Eo' : obj_eqb (ON o) (ON (iri_node c)) = false).
+        { destruct (obj_eqb (ON o) (ON (iri_node c))) eqn:E'; [|reflexivity]. apply obj_eqb_eq in E'.
+          inversion E'; subst o. cbn in Ec. rewrite str_eqb_refl in Ec. discriminate. }
+        rewrite Eo'. rewrite andb_false_r. cbn [andb].
+        destruct (_ && str_eqb (nid (ts t)) (nid n)); [|reflexivity].
+        unfold count_str. cbn. rewrite Ec. reflexivity. }
+    rewrite E. clear E. destruct tgt; cbn [andb].
+    + destruct (str_eqb (tp t) tau && obj_eqb (to t) (ON (iri_node c))); cbn [andb map].
+      * unfold count_obj at 2. cbn [filter]. destruct (obj_eqb (ON n) (ON (ts t))); reflexivity.
+      * reflexivity.
+    + reflexivity.
+Qed.
+
+Lemma mode_targets tg orc G p0 c :
+  dom_facts tg orc G p0 ->
+  match mode_of tg with
+  | Some TAll => true
+  | Some (TClasses l) => mem_str c l
+  | None => false
+  end = class_targetedb tg c.
+Proof.
+  intros F. pose proof (df_ns _ _ _ _ F) as W. unfold mode_of, class_targetedb.
+  destruct (t_all tg); [reflexivity|]. cbn [orb].
+  destruct (t_classes tg) as [l|] eqn:El; [|reflexivity].
+  destruct (df_classes _ _ _ _ F l El) as [_ Hall]. clear El.
+  induction l as [|r l IH]; [reflexivity|]. cbn [map mem_str existsb].
+  rewrite IH by (intros; apply Hall; right; assumption).
+  destruct (tune_one_ok _ _ r W (Hall r (or_introl eq_refl))) as [_ [Hres _]]. rewrite Hres. reflexivity.
+Qed.
+
+Theorem multiplicity tg cs fmt orc G :
+  C10_dom tg orc G = true -> nodup_graph G = true ->
+  exists d, run orc (to_tspec tg cs fmt) G = OOk d /\
+            forall S n, wf_key S = true -> wf_node n = true ->
+                        count_str (key_of S) (labels_of d (node_key n)) =
+                        count_obj (ON n) (denote_list tg (o_ans orc) G S).
+Proof.
+  intros Hdom Hnd. destruct (run_char tg cs fmt orc G Hdom) as [d [Hrun Hl]].
+  destruct (dom_facts_of _ _ _ Hdom) as [p0 F]. pose proof (df_ns _ _ _ _ F) as W.
+  exists d. split; [assumption|]. intros S n WS Wn. unfold node_key. rewrite Hl, count_str_app.
+  destruct (tau_ok _ _ _ W (df_tau _ _ _ _ F)) as [_ [Htau _]].
+  destruct S as [c|l]; cbn [key_of denote_list wf_key] in *.
+  - apply andb_true_iff in WS. destruct WS as [Wc1 Wc2]. apply negb_true_iff in Wc1. apply negb_true_iff in Wc2.
+    rewrite count_str_notin.
+    2:{ intros H. apply (items_part_angle _ _ _ _ _ _ F) in H. unfold has_corners in H. rewrite Wc2 in H. discriminate. }
+    cbn [Nat.add]. unfold class_part, class_answers. rewrite Htau, <- (mode_targets _ _ _ _ c F).
+    destruct (mode_of tg) as [m|]; [|reflexivity].
+    rewrite (class_count _ m _ _ _ (df_graph _ _ _ _ F) Wn Wc1). destruct m; reflexivity.
+  - rewrite (items_count _ _ _ _ _ _ F Wn), (rdflib_graph_nodup _ Hnd).
+    rewrite (count_str_notin _ (class_part tg G (nid n))); [apply Nat.add_0_r|].
+    intros H. apply (class_part_plain _ _ _ _ _ _ F) in H. destruct H as [H _].
+    rewrite has_corners_angle in H. discriminate.
+Qed.
+
+Lemma nodup_objs_count x l : nodup_objs l = true -> (count_obj x l <= 1)%nat.
+Proof.
+  unfold count_obj. induction l as [|y l IH]; intros H; [cbn; lia|]. cbn [nodup_objs] in H.
+  apply andb_true_iff in H. destruct H as [Hy Hl]. apply negb_true_iff in Hy. cbn [filter].
+  destruct (obj_eqb x y) eqn:E; [|auto]. apply obj_eqb_eq in E. subst y. cbn [List.length].
+  assert (filter (obj_eqb x) l = []) as ->; [|cbn; lia].
+  clear IH Hl. induction l as [|z l IHl]; [reflexivity|]. cbn [existsb] in Hy. apply orb_false_iff in Hy.
+  destruct Hy as [Hz Hy]. cbn [filter]. rewrite Hz. auto.
+Qed.
+
+Lemma class_answers_once tau c n G :
+  nodup_graph G = true ->
+  (count_obj (ON n) (map (fun t => ON (ts t))
+                         (filter (fun t => str_eqb (tp t) tau && obj_eqb (to t) (ON (iri_node c))) G)) <= 1)%nat.
+Proof.
+  unfold count_obj. induction G as [|t G IH]; intros H; [cbn; lia|]. cbn [nodup_graph] in H.
+  apply andb_true_iff in H. destruct H as [Ht HG]. apply negb_true_iff in Ht. specialize (IH HG). cbn [filter].
+  destruct (str_eqb (tp t) tau && obj_eqb (to t) (ON (iri_node c))) eqn:Ef; [|assumption].
+  cbn [map filter]. destruct (obj_eqb (ON n) (ON (ts t))) eqn:En; [|assumption]. cbn [List.length].
+  apply andb_true_iff in Ef. destruct Ef as [Ep Eo]. apply str_eqb_eq in Ep. apply obj_eqb_eq in Eo.
+  apply obj_eqb_eq in En. inversion En; subst n.
+  assert (Hnil : filter (obj_eqb (ON (ts t)))
+                        (map (fun t0 => ON (ts t0))
+                             (filter (fun t0 => str_eqb (tp t0) tau && obj_eqb (to t0) (ON (iri_node c))) G)) = []).
+  { clear IH HG. induction G as [|u G IHG]; [reflexivity|]. cbn [existsb] in Ht. apply orb_false_iff in Ht.
+    destruct Ht as [Hu Ht]. cbn [filter].
+    destruct (str_eqb (tp u) tau && obj_eqb (to u) (ON (iri_node c))) eqn:Ef; [|auto].
+    cbn [map filter]. destruct (obj_eqb (ON (ts t)) (ON (ts u))) eqn:E; [|auto].
+    exfalso. apply andb_true_iff in Ef. destruct Ef as [Ep' Eo']. apply str_eqb_eq in Ep'. apply obj_eqb_eq in Eo'.
+    apply obj_eqb_eq in E. inversion E as [Es].
+    assert (t = u) by (rewrite <- (triple_eta t), <- (triple_eta u), Es, Ep, Ep', Eo, Eo'; reflexivity).
+    subst u. rewrite (proj2 (triple_eqb_eq t t) eq_refl) in Hu. discriminate. }
+  rewrite Hnil. cbn. lia.
+Qed.
+
+Lemma label_answers_none tg ans G l : mem_str l (item_labels tg) = false -> label_answers tg ans G l = [].
+Proof.
+  unfold label_answers, item_labels. destruct (t_items tg) as [its|]; [|reflexivity].
+  induction its as [|it its IH]; [reflexivity|]. cbn [flat_map].
+  destruct (resolve (t_ns tg) (it_label it)) as [l'|].
+  - cbn [app mem_str]. intros El. apply orb_false_iff in El. destruct El as [E1 E2]. rewrite E1. cbn [app]. auto.
+  - cbn [app]. auto.
+Qed.
+
+(** on the counting domain every node carries a key at most once *)
+Theorem each_once tg cs fmt orc G :
+  C10_dom_count tg orc G = true ->
+  exists d, run orc (to_tspec tg cs fmt) G = OOk d /\
+            forall S n, wf_key S = true -> wf_node n = true ->
+                        (count_str (key_of S) (labels_of d (node_key n)) <= 1)%nat.
+Proof.
+  unfold C10_dom_count. intros H. apply andb_true_iff in H. destruct H as [H Hlab].
+  apply andb_true_iff in H. destruct H as [Hdom Hnd].
+  destruct (multiplicity tg cs fmt orc G Hdom Hnd) as [d [Hrun Hm]]. exists d. split; [assumption|].
+  intros S n WS Wn. rewrite (Hm S n WS Wn). destruct S as [c|l]; cbn [denote_list].
+  - unfold class_answers. destruct (resolve (t_ns tg) (t_tau tg)); [|cbn; lia].
+    destruct (class_targetedb tg c); [|cbn; lia]. apply class_answers_once. assumption.
+  - destruct (mem_str l (item_labels tg)) eqn:El.
+    + apply mem_str_In in El. rewrite forallb_forall in Hlab. apply nodup_objs_count. auto.
+    + rewrite (label_answers_none _ _ _ _ El). cbn. lia.
+Qed.
